@@ -6,10 +6,60 @@ from props.C01 import knotted
 
 LEVEL = "other"
 DEDUCTIVE = [{"module": "rnapolis.common", "sidecar": "contracts.common_all_c",
-              "targets": ["BpSeq.all_dot_brackets", "BpSeq.__make_dot_bracket@dict"]}]
-TRUSTED = ["z3 5.1.0 / cvc5 1.0.3", "pyvc encoding of Python semantics (DESIGN 2.3)", "CPython 3.12"]
-ASSUMPTIONS = []
-EXPLANATION = "see DESIGN.md 4/C16"
+              "targets": ["BpSeq.all_dot_brackets", "BpSeq.__make_dot_bracket@dict",
+                          "lemma:fcfs_levels_are_proper_and_greedy_stable"]}]
+TRUSTED = [
+    "z3 5.1.0 / cvc5 1.0.3", "pyvc encoding of Python semantics (DESIGN 2.3)", "CPython 3.12",
+    "itertools.combinations(range(n), 2): all pairs a < b, lexicographic order (contracts.common_all_c._combinations)",
+    "itertools.permutations(L): every element is L rearranged by a bijection of the positions, and every such rearrangement "
+    "occurs (contracts.common_all_c._permutations; 'each once' is not assumed)",
+    "itertools.product(*U): every element picks one member of every U[c], and every such choice occurs "
+    "(contracts.common_all_c._product)",
+    "frozenset(d.items()) as an interned value with the content of d; equal content => same value is NOT assumed "
+    "(contracts.common_all_c._frozenset)",
+    "dict.update(<frozenset of items>): sets the keys of the items, keeps the others (contracts.common_all_c._dict_update)",
+    "collections.defaultdict(set) (contracts.mapping_c._defaultdict)",
+    "sorted(<set>, key=..): a list holding exactly the members of the set; the order by key is not assumed "
+    "(contracts.mapping_c._sorted_set)",
+    "set of DotBracket (value __eq__/__hash__ over sequence, structure) modelled as a set of object identities: admits "
+    "value-duplicates, never fewer members",
+    "callee contracts proved under C01 (contracts.common_c): BpSeq.__regions, BpSeq.fcfs, DotBracket.from_string@painted, "
+    "BpSeq.sequence",
+]
+ASSUMPTIONS = [
+    "levels30(self) / groups_small(self): the property's quantifier (groups of crossing stems have at most 8 <= 30 stems) as "
+    "uninterpreted predicates; groups_small_definition (ASSUMED, cardinality step): under it every component list - proved "
+    "to be a duplicate-free list of stems of one group - has at most 30 entries",
+    "sorted_rearrangement (ASSUMED mathematical fact, used by the completeness clause only): the stems of a component can be "
+    "listed in non-decreasing order of the levels F (srt / srti: the sorting bijection and its inverse)",
+    "the DFS while-loop and the enumeration loops are proved partially correct (no decreases clause)",
+    "completeness is stated for pseudoknotted structures; for pseudoknot-free ones the single member is BpSeq.fcfs, whose "
+    "contract (contracts.common_c) exports losslessness but not the painted levels",
+]
+EXPLANATION = (
+    "Under contract (contracts.common_all_c, reusing contracts.common_c): BpSeq.all_dot_brackets (all ten loops) and a "
+    "dict-typed variant of BpSeq.__make_dot_bracket verified against the same body. "
+    "ensures every-member-lossless (the C01 clause): every member has the structure's length and sequence and decodes to exactly "
+    "its base pairs - each member is __make_dot_bracket(regions, orders) and the call-site obligations "
+    "`assembled-assignment-is-proper-and-greedy-stable` prove that `orders` is proper on ALL stems and greedy-stable (every "
+    "stem on the lowest level not taken by a crossing stem). "
+    "Permutation loop (soundness): invariants loop6/loop7 = the FCFS inner invariant (level available iff no earlier "
+    "neighbour on it, ghost witnesses), proper-so-far, greedy-so-far; next(filter(..)) never raises StopIteration (ghost "
+    "counter M = 1 + highest level used <= i < len(component) slots: no pigeonhole needed); the recorded frozenset satisfies "
+    "fs_good (`recorded-assignment-is-proper-and-greedy-stable`). "
+    "Conflict graph: j in graph[i] iff stems i, j cross (loop0, `conflict-graph`). DFS: the component lists partition the "
+    "vertices, no vertex twice, no edge between two components (comps_ok, loops 1-3); NOT proved: that a component is "
+    "connected. "
+    "ensures every-proper-greedy-stable-assignment-is-a-member (completeness, ghost parameter F arbitrary): for a "
+    "pseudoknotted structure the painting of every proper greedy-stable assignment F is a member - the permutation of a "
+    "component sorted by F replays F (`next-is-f`, `sorted-permutation-replays-f`), it is enumerated (permutations), the "
+    "per-component records are combined (product) and F's painting enters the set. "
+    "lemma fcfs_levels_are_proper_and_greedy_stable (SMT): the FCFS levels FC (FC_def of contracts.common_c) are proper and "
+    "greedy-stable, hence - by the completeness clause - their painting is a member ('always contains the FCFS notation'; "
+    "identifying that member with BpSeq.fcfs needs the fcfs contract to export its painting, which it does not). "
+    "ensures single-notation-when-pseudoknot-free: no crossing stems => exactly one member (BpSeq.fcfs). "
+    "Stays bounded (oracle): 'without repetition' (needs extensional frozenset / DotBracket value equality), 'contains the "
+    "optimal notation' (optimal => greedy-stable, exchange argument), the round-bracket form of the pseudoknot-free member.")
 
 
 def bounded(tier, seed):
